@@ -74,6 +74,8 @@ def op_library(tag):
         "eom_pulse": ["add_eom", "g", S("d" + t, "int", lo=1), 0.0],
         "eom_off": ["disable_eom", "g"],
         "declare_again": ["declare", "g", "ram_glob"],
+        "declare_bad_target": ["declare", "extra", "ram_loc", "zz"],
+        "declare_too_many": ["declare", "extra", "ram_loc", ["q0", "q1", "q2", "q0x"]],
         "declare_used": ["declare", "g2", "ryd_glob"],
         "slm_bad_dmm": ["config_slm", ["q0", "q1"], "dmm_7"],
         "dmap_bad": ["config_dmap", {"q0": 1.0}, "dmm_7"],
@@ -128,6 +130,22 @@ def only_fall_delay_left(before, after, allow_block_close):
     return AND(*terms)
 
 
+def only_new_channel_left(before, after, name):
+    """Region of finding F20: the only trace of the refused declare_channel is the (empty) channel itself
+    (and the phase-reference table of its basis when it is the first channel of that basis)."""
+    bs, as_ = before["schedule"], after["schedule"]
+    if set(as_) != set(bs) | {name} or name in bs:
+        return False
+    if as_[name]["slots"] or as_[name]["blocks"]:
+        return False
+    terms = [l2.snap_equal({k: v for k, v in as_.items() if k != name}, bs),
+             l2.snap_equal(before["calls"], after["calls"]), l2.snap_equal(before["to_build_calls"], after["to_build_calls"]),
+             l2.snap_equal(before["flags"], after["flags"])]
+    for b, d in before["basis_ref"].items():
+        terms.append(l2.snap_equal(d, after["basis_ref"].get(b)))
+    return AND(*terms)
+
+
 def h_atomic(shape):
     def h(inp):
         stubs.bind(inp)
@@ -148,6 +166,8 @@ def h_atomic(shape):
                 obs.append((label, l2.snap_equal(before, after)))
                 inp.publish("only_delays_left_behind@" + label, only_fall_delay_left(before, after, False))
                 inp.publish("only_delays_and_eom_close_left_behind@" + label, only_fall_delay_left(before, after, True))
+                if op[0] == "declare":
+                    inp.publish("only_the_new_channel_left_behind@" + label, only_new_channel_left(before, after, op[1]))
         # the whole history (successes + failures) leaves a consistent object:
         # a build()-free copy through the call log reproduces the timeline
         return obs
@@ -184,6 +204,26 @@ def h_unknown_var(shape):
                 y = seq.declare_variable("z", dtype=float)
                 before = l2.snapshot(seq)
                 seq.add(Pulse.ConstantPulse(16, y, v, 0.0), "g")
+            elif shape["call"] in ("own_add_in_eom", "own_add_eom_outside", "own_enable_eom_twice", "own_add_after_measure",
+                                   "own_target_global", "own_delay_badchannel_kw"):
+                # the sequence's OWN variable in a call that is refused for a reason unrelated to its arguments
+                # (wrong mode of the channel, measured sequence, wrong kind of channel)
+                yf = seq.declare_variable("zf", dtype=float)
+                yi = seq.declare_variable("zi", dtype=int)
+                before = l2.snapshot(seq)
+                c = shape["call"]
+                if c == "own_add_in_eom":
+                    seq.add(Pulse.ConstantPulse(16, yf, 0.0, 0.0), "g")
+                elif c == "own_add_eom_outside":
+                    seq.add_eom_pulse("g", yi, 0.0)
+                elif c == "own_enable_eom_twice":
+                    seq.enable_eom_mode("g", yf, 0.0)
+                elif c == "own_add_after_measure":
+                    seq.add(Pulse.ConstantPulse(yi, 1.0, 0.0, 0.0), "g")
+                elif c == "own_target_global":
+                    seq.target_index(yi, "g")
+                else:
+                    seq.delay(duration=yi, channel="zz")
             elif shape["call"] == "add":
                 seq.add(Pulse.ConstantPulse(16, v, 0.0, 0.0), "g")
             elif shape["call"] == "delay":
@@ -271,7 +311,16 @@ def h_copy(shape):
             cp = seq.build()
         else:
             cp = seq.switch_register(l2.mk_register("reg3"))
-        return [("copy:%s_identical_timeline" % shape["via"], l2.snap_equal(l2.timeline(seq), l2.timeline(cp)))]
+        obs = [("copy:%s_identical_timeline" % shape["via"], l2.snap_equal(l2.timeline(seq), l2.timeline(cp)))]
+        # the two are independent objects: building further on either leaves the other exactly as it was
+        snap_o, snap_c = l2.snapshot(seq), l2.snapshot(cp)
+        more = [["add", "g", ["cp", 20, 1.0, 0.0, 0.5]], ["target", "l", "q2"], ["phase_shift", 0.25, ["q1"], "ground-rydberg"], ["measure", "ground-rydberg"]]
+        l2.run_prefix(inp, cp, more)
+        obs.append(("copy:%s_original_unaffected_by_calls_on_copy" % shape["via"], l2.snap_equal(snap_o, l2.snapshot(seq))))
+        snap_c2 = l2.snapshot(cp)
+        l2.run_prefix(inp, seq, [["delay", "g", 40], ["target", "l", "q0"], ["phase_shift", 0.75, ["q2"], "ground-rydberg"]])
+        obs.append(("copy:%s_copy_unaffected_by_calls_on_original" % shape["via"], l2.snap_equal(snap_c2, l2.snapshot(cp))))
+        return obs
 
     return h
 
@@ -292,6 +341,9 @@ def kernels(tier):
         for call in ("add", "delay", "phase_shift", "enable_eom", "add_own_badchannel", "delay_own_badchannel", "add_two_args"):
             for own in (False, True):
                 ks.append(("unknown_var", dict(device="virt_maxseq", prefix=pre, call=call, own_var=own)))
+    for pre, call in (("p2", "own_add_in_eom"), ("p2", "own_enable_eom_twice"), ("p0", "own_add_eom_outside"), ("p1", "own_add_eom_outside"),
+                      ("p1", "own_target_global"), ("p1", "own_delay_badchannel_kw")):
+        ks.append(("unknown_var", dict(device="virt_maxseq", prefix=pre, call=call, own_var=False)))
     for what in ("str", "get_duration", "estimate", "phase_ref", "queries", "sample", "build_copy", "to_abstract_repr", "serialize"):
         for eom in (False, True):
             if what == "sample" and eom:
